@@ -10,7 +10,7 @@ DEMO=$(ls */tests/test_mut_demo.rs 2>/dev/null | head -1)
 CRATE=$(dirname $(dirname $DEMO))
 git diff -- . ':(exclude)**/test_mut_demo.rs' > /tmp/_in_$ID.diff
 [ -s /tmp/_in_$ID.diff ] || { echo "empty patch"; exit 2; }
-FEAT=$(grep -o '#!\[cfg(feature = "[a-z_0-9-]*")\]' $DEMO | head -1 | sed 's/.*"\(.*\)".*/\1/')
+FEAT=$(grep -m1 '^#!\[cfg(' $DEMO | grep -o 'feature = "[a-z_0-9-]*"' | sed 's/feature = "\(.*\)"/\1/' | paste -sd, -)
 EXTRA=""; [ -n "$FEAT" ] && EXTRA="--features $FEAT"
 mv $DEMO /tmp/_in_$ID.demo.rs
 SUITE=$(cargo test --workspace --no-fail-fast --offline 2>&1 | grep -E "^test result|^error(\[|:)" | awk '/^test result/ {p+=$4; f+=$6} /^error/ {e+=1} END {print "passed",p,"failed",f,"build_errors",e+0}')
